@@ -40,3 +40,78 @@ class Unsendable:
 
     def __reduce__(self):
         raise TypeError('cannot send this')
+
+
+# ---- tasks with explicit scheduling points (layer L1 / L3) -----------------
+def _pt(tag):
+    from vmc import vos
+    vos._point('task', tag)
+
+
+INVOKED = []          # (pid, name, arg): what really started executing
+
+
+def _mark(name, arg):
+    from vmc import vos
+    INVOKED.append((vos.cur_pid(), name, arg))
+
+
+def work(x):
+    _mark('work', x)
+    _pt(1)
+    _pt(2)
+    _pt(3)
+    return ('done', x)
+
+
+def work_raise(x):
+    _mark('work_raise', x)
+    _pt(1)
+    raise ValueError('bad', x)
+
+
+def work_base(x):
+    _mark('work_base', x)
+    _pt(1)
+    raise KeyboardInterrupt('base', x)
+
+
+def work_unpicklable(x):
+    _mark('work_unpicklable', x)
+    _pt(1)
+    return lambda: x
+
+
+def work_catch_soft(x):
+    """Catches the soft limit and still returns a value."""
+    from billiard.exceptions import SoftTimeLimitExceeded
+    _mark('work_catch_soft', x)
+    try:
+        _pt(1)
+        _pt(2)
+        _pt(3)
+    except SoftTimeLimitExceeded:
+        return ('caught-soft', x)
+    return ('done', x)
+
+
+def work_in_except(x):
+    """Spends time inside its own exception handler and finally block."""
+    _mark('work_in_except', x)
+    try:
+        try:
+            raise KeyError(x)
+        except KeyError:
+            _pt('in-except-1')
+            _pt('in-except-2')
+    finally:
+        _pt('in-finally')
+    return ('done', x)
+
+
+def sleepy(x):
+    """A task that takes virtual time."""
+    import time
+    _mark('sleepy', x)
+    time.sleep(x)
+    return ('slept', x)
